@@ -136,7 +136,7 @@ def run_variant(args) -> dict:
             hit = [r for r in v["rules"] if r in fired]
             where = [f'{o["rule"]} @ {o["where"].replace(root, "")}' for p in props for o in res.get(p, [])]
             if "ERROR" in res and not hit:
-                return {"id": v["id"], "status": "ERROR", "detail": json.dumps(res["ERROR"])[:600]}
+                return {"id": v["id"], "status": "ERROR", "detail": json.dumps(res["ERROR"])[:600], "fired": fired, "where": where[:6]}
             need = v.get("need", "any")
             ok = bool(hit) if need == "any" else len(hit) == len(v["rules"])
             if ok and v.get("where"):
